@@ -304,6 +304,7 @@ Not applicable (run-time values): resolution of references, nested CHOICE/SEQUEN
     }
 
     struct_values(m, ctx);
+    default_traversal(m, ctx);
     crate::rules::c06::named_first(m, ctx, "C07.named");
     oid(m, ctx, &ev);
     strings(m, ctx, &ev);
@@ -619,4 +620,29 @@ fn strings(m: &Model, ctx: &mut Ctx, ev: &Evaluator) {
         }
     }
     ctx.sample(json!({"string_types": variants}));
+}
+
+/// C07.traverse: DEFAULT values are given their meaning (named numbers, literal form, hstring vs bstring) when the linker
+/// links them with the component's type; ASN1Type::collect_supertypes is the traversal that gets there. A DEFAULT can
+/// sit in a SEQUENCE / SET at any depth below a type assignment: below components, CHOICE alternatives and the element
+/// types of SEQUENCE OF / SET OF. The traversal must descend into all five container kinds.
+fn default_traversal(m: &Model, ctx: &mut Ctx) {
+    let Some(f) = m.fns.iter().find(|f| f.name == "collect_supertypes" && f.self_ty.as_deref() == Some("ASN1Type")) else {
+        ctx.fail_closed("C07.traverse", "anchor not found: ASN1Type::collect_supertypes");
+        return;
+    };
+    ctx.func(&f.key);
+    let Some(mt) = model::matches_in(&f.block).into_iter().find(|mt| tok(&mt.expr) == "self") else {
+        ctx.fail_closed("C07.traverse", "collect_supertypes: no `match self`");
+        return;
+    };
+    for v in ["Sequence", "Set", "Choice", "SequenceOf", "SetOf"] {
+        ctx.oblige("C07.traverse", v, true);
+        let arm = mt.arms.iter().find(|a| tok(&a.pat).split('|').any(|alt| alt.contains(&format!("ASN1Type::{}(", v))));
+        let descends = arm.map(|a| tok(&a.body).contains("collect_supertypes(")).unwrap_or(false);
+        if !descends {
+            ctx.violate("C07.traverse", &format!("container-not-visited:{}", v), &f.file, arm.map(|a| span_line(a)).unwrap_or(f.line),
+                &format!("collect_supertypes does not descend into ASN1Type::{}: a DEFAULT of a SEQUENCE written inline below a {} is handed to the generator unlinked — a named number is emitted as a reference to a constant of that name, an INTEGER as a bare literal, an hstring as a list of bits", v, match v { "Choice" => "CHOICE alternative", "SequenceOf" => "SEQUENCE OF", "SetOf" => "SET OF", o => o }));
+        }
+    }
 }
